@@ -2475,21 +2475,24 @@ impl SctpInner {
             if !stream_ssn_pairs.is_empty() {
                 let mut streams = self.inbound_streams.lock();
                 for (sid, ssn) in &stream_ssn_pairs {
-                    if let Some(stream) = streams.get_mut(sid) {
-                        stream.advance_ssn_to(*ssn);
-                        // Deliver any messages that are now ready
-                        let ready = stream.drain_ready();
-                        if !ready.is_empty() {
-                            let channels = self.data_channels.lock();
-                            for weak_dc in channels.iter() {
-                                if let Some(dc) = weak_dc.upgrade()
-                                    && dc.id == *sid
-                                {
-                                    for m in &ready {
-                                        dc.send_event(DataChannelEvent::Message(m.clone()));
-                                    }
-                                    break;
+                    // The stream may not have delivered anything yet (its FIRST message
+                    // is the abandoned one): it still has to learn that this SSN is
+                    // skipped, or every later message waits for it - and the message
+                    // carrying the same SSN after a wrap-around would overtake them.
+                    let stream = streams.entry(*sid).or_insert_with(InboundStream::new);
+                    stream.advance_ssn_to(*ssn);
+                    // Deliver any messages that are now ready
+                    let ready = stream.drain_ready();
+                    if !ready.is_empty() {
+                        let channels = self.data_channels.lock();
+                        for weak_dc in channels.iter() {
+                            if let Some(dc) = weak_dc.upgrade()
+                                && dc.id == *sid
+                            {
+                                for m in &ready {
+                                    dc.send_event(DataChannelEvent::Message(m.clone()));
                                 }
+                                break;
                             }
                         }
                     }
